@@ -457,6 +457,8 @@ func GenC02(r *Rng, n int, tier string) []PipeIn {
 		cfg.Matcher = "re:" + Pick(r, c02Regexes)
 		if r.Chance(1, 8) {
 			cfg.Matcher = "always"
+		} else if r.Chance(1, 5) {
+			cfg.Matcher = Pick(r, []string{"dissect:%{a} %{b}", "dissect:k=%{v};", "dissect:%{a}:%{b}:%{c}"})
 		}
 		cfg.HoldAll = true
 		in := PipeIn{Cfg: cfg}
@@ -499,6 +501,15 @@ func GenC02(r *Rng, n int, tier string) []PipeIn {
 			return append(bytes.Repeat([]byte{c}, 120), []byte("=123456\n")...)
 		})
 		ins[1].Cfg.HoldAll = true
+	}
+	if len(ins) > 3 { // a dissect matcher (pooled index slices, one instance per worker) under many workers and small batches
+		var b []byte
+		for i := 0; i < 1400; i++ {
+			b = append(b, []byte(fmt.Sprintf("w%d v%d\n", i%7, i))...)
+		}
+		ins[2] = PipeIn{Cfg: Config{Mode: "files", Batch: 5, Workers: 8, Readers: 1, Buffer: 4, Matcher: "dissect:%{a} %{b}", DelaySeed: 5, HoldAll: true},
+			Extract: []KPiece{{Kind: "name", Text: "a"}, {Kind: "lit", Text: "|"}, {Kind: "group", Idx: 2}},
+			Sources: []Source{{Name: "many.log", Stream: hex.EncodeToString(b)}}}
 	}
 	if len(ins) > 1 { // time-flush path: line numbers across timer-forced batches
 		st := []byte("k=1\nq=\nzz=22\nw=3\nlast=9")
